@@ -155,6 +155,20 @@ def r3_bounds_reach_scan(ctx):
                     adv = True
             rep.ob('C06.R3', ctx.loc(f, c), '%s += len(piece)' % pos, adv and pos in startvars,
                    'after a match the lower bound moves past the piece' if adv and pos in startvars else 'the lower bound is not advanced past a matched piece', anchor=EM)
+    # every remaining piece is searched: the scan loop runs over the list the anchored pieces were removed from, not over a part of it
+    for (n, c) in searches:
+        loops_ = [fr for fr in n.frames if fr.kind == 'loop']
+        if not loops_:
+            continue
+        it = loops_[-1].stmt.iter
+        if isinstance(it, ast.Subscript) and isinstance(it.slice, ast.Slice) and isinstance(it.value, ast.Name):
+            P = it.value.id
+            dels = [x for x in ast.walk(f.node) if isinstance(x, ast.Delete) and any(isinstance(t, ast.Subscript) and is_name(t.value, P) for t in x.targets)]
+            dels += [x for x in ast.walk(f.node) if isinstance(x, ast.Call) and isinstance(x.func, ast.Attribute) and x.func.attr == 'pop' and is_name(x.func.value, P)]
+            if dels:
+                rep.ob('C06.R3', ctx.loc(f, loops_[-1].stmt), 'for ... in %s' % ctx.src(it), False,
+                       'the anchored first / last piece is removed from `%s` in place (%s) AND the scan skips an element of what is left: a middle piece is never searched for, '
+                       'so a got that lacks it still matches' % (P, ctx.src(dels[0], 30)), anchor=EM)
     # suffix branch decreases the end bound, prefix branch advances the start
     dec = [n for n in g.nodes if n.kind == 'stmt' and isinstance(n.ast, ast.AugAssign) and isinstance(n.ast.op, ast.Sub) and isinstance(n.ast.target, ast.Name) and n.ast.target.id in endvars]
     ok = False
@@ -350,6 +364,7 @@ from ..selftest import fire, silent      # noqa: E402
 
 CK = 'xdoctest/checker.py'
 VARIANTS = [
+    fire('scan-skips-the-first-middle-piece', 'C06.R3', (CK, "    for w in ws:\n", "    for w in ws[1:]:\n")),
     fire('M3-scan-without-end-bound', 'C06.R3', (CK, "        startpos = got.find(w, startpos, endpos)\n", "        startpos = got.find(w, startpos)\n")),
     fire('scan-from-zero', 'C06.R3', (CK, "        startpos = got.find(w, startpos, endpos)\n", "        startpos = got.find(w, 0, endpos)\n")),
     fire('suffix-not-reserved', 'C06.R3', (CK, "            endpos -= len(w)\n", "            pass\n")),
